@@ -1570,6 +1570,13 @@ def run(tier, seed, model_ok, translator, search=False):
                 want = bc.canon_model(ans)
                 got = {"blocks": impl["blocks"], "issues": impl["issues"], "ending": impl["ending"]}
                 if want != got:
+                    if case.get("stdout") == "ascii" and case.get("fixer") == "plain_lenient" and any(
+                            r and isinstance(r[0], str) and r[0].startswith("**") and not r[0].isascii()
+                            for r in (case.get("rows") or [])):
+                        # known finding F7 (`report_print_unencodable`): the model has no console; the refusal is
+                        # judged and reported by the oracle under that key, not as a model difference
+                        out.count("model comparison skipped: table name not encodable on an ASCII stdout (F7)")
+                        continue
                     out.mismatch("stream: pdtable vs Lean parseBlocks", case, got, want)
                     continue
                 no_fail = not impl["issues"] and impl["ending"] == "exhausted"
